@@ -77,3 +77,13 @@ package clause
 //@ func rawNeedsParentheses
 //@   tags C06
 //@   modifies nothing
+
+//@ # ---------- C01: template expansion ----------
+//@ func (Expr).Build
+//@   tags C01 safety
+//@   loop 1 invariant cursor-in-range: 0 <= idx && idx <= len(expr.Vars)
+//@ site valuers-are-bound-whole
+//@   match call reflect.ValueOf
+//@   in clause.(Expr).Build
+//@   min-sites 1
+//@   assert not-a-valuer: !is(arg0, driver.Valuer) [C01]
